@@ -49,6 +49,59 @@ func bucketSizes(doc []byte) (sum, n int) {
 	return
 }
 
+// blockedHandlerStack returns the stack of a goroutine that is inside webstack.SnapshotHandler and parked on a
+// channel, a select or a lock (not running, not in a system call or in network I/O), "" if there is none.
+func blockedHandlerStack() string {
+	buf := make([]byte, 64<<20)
+	buf = buf[:runtime.Stack(buf, true)]
+	for _, g := range bytes.Split(buf, []byte("\n\n")) {
+		if !bytes.Contains(g, []byte("webstack.SnapshotHandler")) {
+			continue
+		}
+		hdr := g
+		if i := bytes.IndexByte(g, '\n'); i >= 0 {
+			hdr = g[:i]
+		}
+		for _, st := range []string{"[select", "[chan receive", "[chan send", "[semacquire", "[sync.Mutex.Lock", "[sync.RWMutex", "[sync.Cond.Wait", "[sync.WaitGroup.Wait"} {
+			if bytes.Contains(hdr, []byte(st)) {
+				return core.Trunc(string(g), 1500)
+			}
+		}
+	}
+	return ""
+}
+
+// callHandler calls the handler in-process with a watchdog. verdict: "" answered; "blocked" a handler goroutine is
+// parked inside the library (with its stack); "slow" the watchdog fired while the handler was still running.
+func callHandler(path string, wait time.Duration) (code int, body string, verdict, stackTxt string) {
+	rec := httptest.NewRecorder()
+	done := make(chan struct{})
+	go func() {
+		defer close(done)
+		defer func() {
+			if p := recover(); p != nil {
+				rec.Code = 599
+				rec.Body.WriteString(fmt.Sprint(p))
+			}
+		}()
+		webstack.SnapshotHandler(rec, httptest.NewRequest("GET", path, nil))
+	}()
+	select {
+	case <-done:
+		return rec.Code, rec.Body.String(), "", ""
+	case <-time.After(wait):
+	}
+	if st := blockedHandlerStack(); st != "" {
+		return 0, "", "blocked", st
+	}
+	select {
+	case <-done:
+		return rec.Code, rec.Body.String(), "", ""
+	case <-time.After(wait):
+	}
+	return 0, "", "slow", ""
+}
+
 // verifMarkerPark is where marker goroutines wait: a request issued after a marker entered it must find the marker
 // accounted for on the page it gets.
 //
@@ -273,6 +326,7 @@ func runC20(r *core.Run) {
 			}
 		}()
 	}
+	var stuck atomic.Bool
 	clients := r.N(8, 32)
 	perClient := r.N(30, 40)
 	stopMarkers := make(chan struct{})
@@ -283,7 +337,7 @@ func runC20(r *core.Run) {
 		go func(cidx int) {
 			defer wg.Done()
 			rr := core.NewRand(r.Seed, 20, uint64(cidx))
-			client := &http.Client{Transport: &http.Transport{DialContext: func(ctx context.Context, network, addr string) (net.Conn, error) {
+			client := &http.Client{Timeout: 3 * time.Minute, Transport: &http.Transport{DialContext: func(ctx context.Context, network, addr string) (net.Conn, error) {
 				c, err := (&net.Dialer{}).DialContext(ctx, network, addr)
 				if tc, ok := c.(*net.TCPConn); ok {
 					_ = tc.SetReadBuffer(8 << 10)
@@ -298,10 +352,25 @@ func runC20(r *core.Run) {
 				go verifMarkerPark(started, stopMarkers)
 				<-started
 				markersBefore := int(markerCount.Load() - markerBase)
+				if stuck.Load() {
+					return // a request is known to be stuck: the verdict is in, no point in queueing behind it
+				}
 				req, _ := http.NewRequest(spec.Method, srv.URL+"/debug/panicparse?"+spec.Query, nil)
 				resp, err := client.Do(req)
 				r.Eval(1)
 				if err != nil {
+					if ne, ok := err.(interface{ Timeout() bool }); ok && ne.Timeout() {
+						// the watchdog fired. That alone decides nothing: look at what the handler is doing. A handler
+						// goroutine parked on a channel, select or lock inside the library will not finish on its own.
+						if st := blockedHandlerStack(); st != "" {
+							if !stuck.Swap(true) {
+								r.Violation("handler-blocked", fmt.Sprintf("%s ?%s got no answer and a handler goroutine is parked inside the library:\n%s", spec.Method, spec.Query, st), "req", spec)
+							}
+						} else if !stuck.Swap(true) {
+							r.Inconclusive(fmt.Sprintf("%s ?%s: the request watchdog fired while the handler was still running", spec.Method, spec.Query))
+						}
+						return
+					}
 					r.Violation("handler-no-response", fmt.Sprintf("%s ?%s: %v", spec.Method, spec.Query, err), "req", spec)
 					continue
 				}
@@ -391,7 +460,7 @@ func runC20(r *core.Run) {
 	}
 	// Large process: a dump bigger than the handler's initial 1 MiB buffer, with maxmem values that are
 	// sufficient for it but are not a power-of-two multiple of 1 MiB (the grow-and-retry loop must use them fully).
-	{
+	if !stuck.Load() {
 		park := make(chan struct{})
 		var pw sync.WaitGroup
 		n := r.N(1100, 9000)
@@ -418,9 +487,17 @@ func runC20(r *core.Run) {
 		}
 		for _, mm := range mms {
 			q := fmt.Sprintf("maxmem=%d&augment=0", mm)
-			resp, err := http.Get(srv.URL + "/debug/panicparse?" + q)
+			resp, err := (&http.Client{Timeout: 5 * time.Minute}).Get(srv.URL + "/debug/panicparse?" + q)
 			r.Eval(1)
 			if err != nil {
+				if ne, ok := err.(interface{ Timeout() bool }); ok && ne.Timeout() {
+					if st := blockedHandlerStack(); st != "" {
+						r.Violation("handler-blocked", fmt.Sprintf("GET ?%s got no answer and a handler goroutine is parked inside the library:\n%s", q, st), "req", reqSpec{Method: "GET", Query: q, Valid: true})
+					} else {
+						r.Inconclusive(fmt.Sprintf("GET ?%s: the request watchdog fired while the handler was still running", q))
+					}
+					break
+				}
 				r.Violation("handler-no-response", fmt.Sprintf("GET ?%s: %v", q, err), "req", reqSpec{Method: "GET", Query: q, Valid: true})
 				continue
 			}
